@@ -119,6 +119,29 @@ def gen_lp_only(tier, rng):
 def gen_fixed(tier, rng):
     # single-valued variables inside >= / = rows: to_lp_problem moves them to the right-hand side per standard-form row
     return [gen_lin_model(rng, PRECS, rng.choice([["lp", "fp"], ["lp"]]), fixed=True) for _ in range(800 if tier == "quick" else 20000)]
+def gen_fastpath_simple(tier, rng):
+    """models the optimisation fast path is meant for: 1-3 variables, ONLY comparisons of one variable with a constant posted at
+    the props level (several bounds on the same variable, redundant and binding ones, both directions), objective = one of them"""
+    out = []
+    for _ in range(1500 if tier == "quick" else 40000):
+        prec = rng.choice(PRECS)
+        nv = rng.choice([1, 1, 2, 2, 3])
+        decls, lo_hi = [], []
+        for i in range(nv):
+            if rng.random() < 0.2 and i > 0:
+                lo = rng.randint(-4, 2); hi = lo + rng.randint(2, 8); decls.append("I %d %d" % (lo, hi))
+            else:
+                lo = Fraction(rng.randint(-12, 6), 2); hi = lo + Fraction(rng.randint(4, 24), 2); decls.append("F %s %s" % (hq(lo), hq(hi)))
+            lo_hi.append((Fraction(lo), Fraction(hi)))
+        posts = []
+        for _ in range(rng.choice([1, 2, 2, 3, 4])):
+            v = rng.randrange(nv); lo, hi = lo_hi[v]
+            c = lo + (hi - lo) * Fraction(rng.randint(-1, 9), 8)
+            if decls[v].startswith("I") and rng.random() < 0.5: c = Fraction(int(c))
+            posts.append("props %s x%d f:%s" % (rng.choice(["leq", "geq", "leq", "geq", "lt", "gt", "eq"]), v, hq(c)))
+        obj = rng.randrange(nv)
+        out.append(" ; ".join([str(prec), "|".join(decls)] + posts + ["%s x%d" % (rng.choice(["min", "max"]), obj)] + rng.choice([["lp", "fp"], ["fp"]]) + ["to 400"]))
+    return out
 def gen_search(tier, rng):
     return [gen_lin_model(rng, [1, 1, 2, 2, 3], [], small=True, to=1500) for _ in range(300 if tier == "quick" else 6000)]
 
@@ -287,7 +310,7 @@ def classify(line, impl, cls):
     # that answered (fast path when its gate holds and the root LP step did not run; root LP step when hook H5 says it ran);
     # then, for NoSolution / a wrong optimum, the row classes present in the model
     if cs and all(c is not None for c in cs): return cs[0]
-    if fm.fast_path_applies(case) and not impl.endswith("lp=1"):
+    if fm.fast_path_applies(case) and not impl.endswith("lp=1") and not fm.fast_path_core(case):
         return "fast_path"
     if impl.endswith("lp=1") and impl.startswith("err NoSolution"):
         # D10's only symptom: the LP vertex, fixed on every LP variable, contradicts the remaining constraints or an integer
@@ -328,4 +351,4 @@ def fam(name, gen):
     f.classify = classify
     f.corr = corr_dispatch
     return f
-FAMILIES = [fam("opt_default", gen_default), fam("opt_lp_only", gen_lp_only), fam("opt_fixed_vars", gen_fixed), fam("opt_search", gen_search)]
+FAMILIES = [fam("opt_default", gen_default), fam("opt_lp_only", gen_lp_only), fam("opt_fixed_vars", gen_fixed), fam("opt_fastpath_simple", gen_fastpath_simple), fam("opt_search", gen_search)]
